@@ -54,6 +54,7 @@ type Script struct {
 	// HoldAt+1 has been answered (from the then-current chain) and the source has replaced every block
 	// from HoldAt on: responses out of order with a reorg in between
 	HoldAt int `json:"hold_at"`
+	PollMs int `json:"poll_ms"` // > 0: pre-confirmed poller enabled with this interval (the source has no pre-confirmed data)
 }
 
 // ---------- the source ----------
@@ -114,6 +115,9 @@ type Run struct {
 	problems []string
 	holdDone chan struct{}
 	holdUsed bool
+	catchUp  bool // mode announced by the last "Restarting sync process"
+	inFetch  int  // fetcher requests currently inside the source
+	maxFetch int
 	local    *chain.Node
 	nhSub    sync.NewHeadSubscription
 	roSub    sync.ReorgSubscription
@@ -326,6 +330,14 @@ func (d DS) BlockByNumber(ctx context.Context, n uint64) (sync.CommittedBlock, e
 		r.mu.Unlock()
 	}
 	r.mu.Lock()
+	if kind == "fetch" {
+		r.inFetch++
+		r.maxFetch = max(r.maxFetch, r.inFetch)
+		defer func() { r.mu.Lock(); r.inFetch--; r.mu.Unlock() }()
+	}
+	r.mu.Unlock()
+	r.yield()
+	r.mu.Lock()
 	r.reqs++
 	r.applyActions()
 	if kind != "fetch" && kind != "revert" {
@@ -405,6 +417,7 @@ func (d DS) BlockHeaderLatest(ctx context.Context) (*core.Header, error) {
 	r.applyActions()
 	hdr := func(sb *SBlock) *core.Header { h := *sb.B.Block.Header; return &h }
 	if kind == "poll" {
+		r.hist["poll-latest-calls"]++
 		if len(r.cur) == 0 {
 			return nil, errNotFound
 		}
@@ -479,6 +492,11 @@ func (r *Run) OnSyncStepDone(op string, n uint64, _ time.Duration) {
 		} else {
 			r.log = append(r.log, Ev{K: "store", H: n, S: *h.Hash})
 			r.obs = append(r.obs, *h.Hash)
+			if r.catchUp {
+				r.hist["store:catch-up-mode"]++
+			} else {
+				r.hist["store:tip-following-mode"]++
+			}
 		}
 		r.mu.Unlock()
 	case sync.OpReorgCheckRemote, sync.OpReorgCheckLocal:
@@ -560,6 +578,13 @@ func (l obsLogger) Warn(msg string, fields ...zap.Field) {
 	switch msg {
 	case "Restarting sync process":
 		r.log = append(r.log, Ev{K: "reset"})
+		cu, _ := num(fields, "catchUpMode")
+		r.catchUp = cu == 1
+		if r.catchUp {
+			r.hist["restart:catch-up-mode"]++
+		} else {
+			r.hist["restart:tip-following-mode"]++
+		}
 	case "Sanity checks failed":
 		n, _ := num(fields, "number")
 		if s := r.lastServed(n); s != nil {
@@ -613,7 +638,10 @@ func runScript(sc *Script) *outcome {
 	r.mu.Lock()
 	r.extend(sc.Init)
 	r.mu.Unlock()
-	syn := sync.New(r.local.BC, DS{r}, obsLogger{r}, 0, false, r.local.DB).WithListener(r)
+	syn := sync.New(r.local.BC, DS{r}, obsLogger{r}, time.Duration(sc.PollMs)*time.Millisecond, false, r.local.DB).WithListener(r)
+	if sc.PollMs > 0 {
+		r.hist["pre-confirmed-poller-enabled"]++
+	}
 	r.nhSub = syn.SubscribeNewHeads()
 	r.roSub = syn.SubscribeReorg()
 	ctx, cancel := context.WithCancel(context.Background())
@@ -714,6 +742,7 @@ func analyse(or *hx.Oracle, o *outcome) (fs []finding, stats map[string]int, mod
 	var ilog, itr []string
 	var inferred []*SBlock
 	cause := ""
+	genMax := uint64(0) // highest height answered to a fetcher in the current stream generation
 	nStore := 0
 	rejected := false
 	send := func(i int, ev string) bool {
@@ -758,6 +787,12 @@ func analyse(or *hx.Oracle, o *outcome) (fs []finding, stats map[string]int, mod
 			msrc = msrc[:len(msrc)-e.D]
 		case "fok", "ferr", "fcor":
 			send(i, fmt.Sprintf("%s %d", e.K, e.H))
+			if e.K != "ferr" {
+				if e.H < genMax {
+					stats["out-of-order-fetch-completion"]++
+				}
+				genMax = max(genMax, e.H)
+			}
 		case "chk":
 			send(i, fmt.Sprintf("%s %d", e.K, e.H))
 			cause = "latest-header"
@@ -821,6 +856,7 @@ func analyse(or *hx.Oracle, o *outcome) (fs []finding, stats map[string]int, mod
 				}
 			}
 			send(i, "reset")
+			genMax = 0
 		case "nreorg":
 			s, en := r.byHash[e.S], r.byHash[e.E]
 			if s == nil || en == nil || s.Num != e.SN || en.Num != e.EN {
@@ -842,6 +878,7 @@ func analyse(or *hx.Oracle, o *outcome) (fs []finding, stats map[string]int, mod
 		}
 	}
 	stats["log-entries"] = len(r.log)
+	stats["max-fetchers-in-flight"] = r.maxFetch
 	if os.Getenv("C06_DEBUG") != "" {
 		for i, e := range r.log {
 			if e.K != "ext" {
@@ -915,6 +952,9 @@ func genScript(rng *hx.RNG, idx int) *Script {
 	if rng.Chance(50) {
 		sc.IgnoreCtx = 10 + rng.Intn(60)
 	}
+	if rng.Chance(30) {
+		sc.PollMs = 1 + rng.Intn(3)
+	}
 	at := 0
 	for i, n := 0, rng.Intn(6); i < n; i++ {
 		at += 1 + rng.Intn(30)
@@ -951,6 +991,11 @@ func scenarios() []*Script {
 		{Name: "stale-head-from-abandoned-fork", Init: 6, NewState: true, Seed: 7, StaleFork: true,
 			Actions: []Action{{At: 40, Kind: "reorg", D: 3, K: 3}},
 			Faults:  []Fault{{At: 90, Kind: "stale"}}},
+		{Name: "tip-following", Init: 3, NewState: false, Seed: 3, PollMs: 1,
+			Actions: []Action{{At: 30, Kind: "ext", K: 1}, {At: 45, Kind: "ext", K: 1}, {At: 60, Kind: "ext", K: 1},
+				{At: 75, Kind: "ext", K: 1}, {At: 90, Kind: "reorg", D: 1, K: 1}, {At: 105, Kind: "ext", K: 1}}},
+		{Name: "catch-up", Init: 48, NewState: true, Seed: 5,
+			Faults: []Fault{{At: 20, Kind: "delay", Arg: 900}, {At: 40, Kind: "delay", Arg: 1400}}},
 		{Name: "reorg-between-out-of-order-responses", Init: 12, NewState: true, Seed: 11, HoldAt: 6, Procs: 4},
 		{Name: "whole-chain-reorg-to-single-block", Init: 4, NewState: true, Seed: 9, Expect: "stuck",
 			Actions: []Action{{At: 40, Kind: "reorg", D: 4, K: 1}}},
@@ -1009,10 +1054,11 @@ func evaluate(c *hx.Ctx, or *hx.Oracle, sc *Script) []finding {
 		c.Hist[k] += v
 	}
 	for k, v := range stats {
-		if strings.HasPrefix(k, "ev:") || k == "store-parent-mismatch" {
+		if strings.HasPrefix(k, "ev:") || k == "store-parent-mismatch" || k == "out-of-order-fetch-completion" {
 			c.Hist[k] += v
 		}
 	}
+	c.Hist[fmt.Sprintf("fetchers-in-flight:%d", stats["max-fetchers-in-flight"])]++
 	c.Hist[fmt.Sprintf("procs:%d", sc.Procs)]++
 	c.Hist[fmt.Sprintf("new_state:%v", sc.NewState)]++
 	nontrivial := stats["ev:rev"] > 0 || stats["ev:verfail"] > 0 || stats["ev:stale"] > 0 || stats["ev:ferr"] > 3
@@ -1063,9 +1109,9 @@ func main() {
 		c.Finish("replay")
 	}
 	rng := hx.NewRNG(c.Seed)
-	nScripts, procSets := 36, [][]int{{1, 4}, {2, 16}}
+	nScripts, procSets := 40, [][]int{{1, 4}, {2, 16}, {8, 1}, {4, 16}}
 	if c.Thorough() {
-		nScripts, procSets = 400, [][]int{{1, 2, 4, 16}}
+		nScripts, procSets = 400, [][]int{{1, 2, 4, 8, 16}}
 	}
 	for _, sc := range scenarios() {
 		for _, p := range []int{1, 4} {
@@ -1094,6 +1140,27 @@ func main() {
 			}
 			report(&s, fs)
 		}
+	}
+	multi := 0
+	for k, v := range c.Hist {
+		var n int
+		if _, err := fmt.Sscanf(k, "fetchers-in-flight:%d", &n); err == nil && n >= 2 {
+			multi += v
+		}
+	}
+	c.Extra["pipeline_coverage"] = map[string]int{
+		"runs_with_2_or_more_fetchers_in_flight": multi,
+		"out_of_order_fetch_completions":         c.Hist["out-of-order-fetch-completion"],
+		"stores_in_catch_up_mode":                c.Hist["store:catch-up-mode"],
+		"stores_in_tip_following_mode":           c.Hist["store:tip-following-mode"],
+		"restarts_into_catch_up_mode":            c.Hist["restart:catch-up-mode"],
+		"restarts_into_tip_following_mode":       c.Hist["restart:tip-following-mode"],
+		"runs_with_pre_confirmed_poller":         c.Hist["pre-confirmed-poller-enabled"],
+		"poll_latest_calls":                      c.Hist["poll-latest-calls"],
+	}
+	if multi == 0 || c.Hist["out-of-order-fetch-completion"] == 0 || c.Hist["store:catch-up-mode"] == 0 ||
+		c.Hist["store:tip-following-mode"] == 0 || c.Hist["pre-confirmed-poller-enabled"] == 0 {
+		c.Violation("generator-degenerate", fmt.Sprintf("a pipeline mode was not exercised in this run: %v", c.Extra["pipeline_coverage"]), nil, true)
 	}
 	c.Extra["model_events"] = "SrcExtend SrcReorg FetchOk FetchErr FetchCorrupt FetchLatest FetchStaleHead FetchLatestErr ReorgCheck Verify VerifyFail StoreOk StoreParentMismatch StoreFail RevFetchOk RevFetchErr RevertOne RevertStop Reset NotifyReorg NotifyNewHead"
 	c.Finish("every observed store/revert/notification is an enabled step of the extracted model given what the scripted source served; history_ok on the implementation's trace; final chain = source chain")
